@@ -61,8 +61,19 @@ pub fn gen_solver<VS: HSet>(sink: &mut Sink, prop: &str, thorough: bool, seed: u
     if VS::KIND == "range" {
         exhaustive_scope::<VS>(sink, prop, thorough, debug);
     }
+    // wide runs: incompatibilities with dozens of terms
+    if VS::KIND == "range" {
+        let ns: &[u32] = if thorough { &[8, 15, 16, 17, 23, 24, 25, 31, 32, 33, 40] } else { &[8, 24, 33] };
+        for &n in ns {
+            for solvable in [true, false] {
+                let r = SolveReq { debug, root: "a_root".into(), rv: 1, reg: wide_registry::<VS>(n, solvable), strat: Strat::Alphabetical, fault: Fault::None };
+                push_solve(sink, prop, &r);
+            }
+        }
+        sink.notes.push(format!("wide runs: a hub with n leaves constraining one package, n in {:?}, solvable and not: learned incompatibilities with up to n + 2 terms", ns));
+    }
     // deep runs: a few hundred decision levels (8-bit narrowing of levels / indices shows)
-    let n_deep = if thorough { 40 } else { 12 };
+    let n_deep = if thorough { 40 } else { 8 };
     let mut crossing = 0usize;
     for _ in 0..n_deep {
         // rejection sampling: prefer a run with a backjump from above decision level 256 to below it
